@@ -18,4 +18,10 @@ func VerifFindingNegativePieceIndex() {
 	err := e.t.WritePiece(piecereader.NewBuffer(verif.Bytes("payload", 1)), pi)
 	verif.Assert("negative-index-rejected", err != nil)
 	e.check()
+	// the rejected write leaves the download usable: finish it
+	for i := 0; i < e.npiece; i++ {
+		werr := e.write(i, e.piece(i))
+		verif.Assert("correct-piece-accepted-afterwards", werr == nil)
+	}
+	e.check()
 }
